@@ -97,12 +97,26 @@ class BasicDSG(DSG):
             removed_edges |= derived_edges
             removed_nodes |= derived_nodes
 
+        # Also remove nodes that have incoming edges but still cannot be reached from any start node
+        # (e.g. a cycle of nodes that only derive each other)
+        removed_nodes |= self._get_unreachable_nodes(start_nodes)
+
         if len(removed_edges) > 0 or len(removed_nodes) > 0:
             dsg = dsg.get_for_adjusted(removed_edges=removed_edges, removed_nodes=removed_nodes)
 
         if initialize_choices:
             return dsg.initialize_choices()
         return dsg
+
+    def _get_unreachable_nodes(self, start_nodes: Set[DSGNode]) -> Set[DSGNode]:
+        reachable = set(start_nodes)
+        to_visit = list(start_nodes)
+        while len(to_visit) > 0:
+            for edge in iter_out_edges(self._graph, to_visit.pop()):
+                if get_edge_type(edge) in {EdgeType.DERIVES, EdgeType.CONNECTS} and edge[1] not in reachable:
+                    reachable.add(edge[1])
+                    to_visit.append(edge[1])
+        return set(self._graph.nodes)-reachable
 
     def _get_alternative_start_nodes(self) -> Set[DSGNode]:
         return self._get_floating_nodes()
